@@ -13,6 +13,15 @@ var vsymC04Signers = 2
 
 func vBig(b []byte) *big.Int { return new(big.Int).SetBytes(b) }
 
+// vSel selects a or b byte by byte without branching (equal lengths).
+func vSel(c bool, a, b []byte) []byte {
+	out := make([]byte, len(a))
+	for i := range a {
+		out[i] = vsym.IteU8(c, a[i], b[i])
+	}
+	return out
+}
+
 // vContentOctets: the octets the message digest commits to: the value of the single element that
 // the [0] content field holds (RFC 2315 §9.3: the contents octets, without tag and length).
 func vContentOctets(ci []byte) ([]byte, bool) {
@@ -55,16 +64,32 @@ func VC04_VerifySound() {
 	}
 	n := 1 + vsym.Pick("signers", vsymC04Signers)
 	names := []string{"s0", "s1"}
+	hsi := hp.SignerInfo[0]
+	honestMD := hsi.AuthenticatedAttributes.MessageDigest
 	for i := 0; i < n; i++ {
+		// every field is either lifted from the honest blob / the certificate or free (explicit
+		// choices, so that a counterexample replays with the real key's signature)
+		// selections are symbolic (no forks): the solver chooses, the replay reads the same choices
+		idOfCert := vsym.Bool(names[i] + ".id.of.cert")
+		iss := vSel(idOfCert, issuer, vsym.BytesN(names[i]+".issuer", len(issuer)))
+		ser := vSel(idOfCert, serial, vsym.BytesN(names[i]+".serial", 2))
+		hc := sha256.Sum256(contentOctets)
+		free := vsym.BytesN(names[i]+".md", 32)
+		vsym.Assume(vsym.And(!bytes.Equal(free, honestMD), !bytes.Equal(free, hc[:]))) // the two meaningful values are the other choices
+		kind := vsym.U8(names[i] + ".md.kind")
+		md := vSel(kind == 1, honestMD, vSel(kind == 2, hc[:], free))
+		fsig := vsym.BytesN(names[i]+".sig", 256)
+		vsym.Assume(!bytes.Equal(fsig, hsi.EncryptedDigest)) // a free signature is not the honest one (that is the other choice)
+		sig := vSel(vsym.Bool(names[i]+".sig.honest"), hsi.EncryptedDigest, fsig)
 		si := &signerinfo{
 			Version:               1,
-			IssuerAndSerialnumber: &issuerAndSerialNumber{RawIssuer: vsym.BytesN(names[i]+".issuer", 3), SerialNumber: vBig(vsym.BytesN(names[i]+".serial", 2))},
+			IssuerAndSerialnumber: &issuerAndSerialNumber{RawIssuer: iss, SerialNumber: vBig(ser)},
 			AuthenticatedAttributes: &Attributes{
-				ContentType:   vOIDs[vsym.Pick(names[i]+".ctype", 2)].oid,
-				MessageDigest: vsym.BytesN(names[i]+".md", 32),
-				SigningTime:   hp.SignerInfo[0].AuthenticatedAttributes.SigningTime,
+				ContentType:   vOIDs[1-vsym.Pick(names[i]+".ctype", 2)].oid,
+				MessageDigest: md,
+				SigningTime:   hsi.AuthenticatedAttributes.SigningTime,
 			},
-			EncryptedDigest: vsym.BytesN(names[i]+".sig", 256),
+			EncryptedDigest: sig,
 		}
 		p.SignerInfo = append(p.SignerInfo, si)
 	}
